@@ -41,11 +41,13 @@ def change_dates_for(rnd, quick, nq, nreg=2):
     return ["2023-01-01"] + allc + [d for d in reg if d not in allc]
 
 
-def make_population(date, rnd, k=None):
+def make_population(date, rnd, k=None, rich=False):
     names = list(popgen.CANON)
     k = k or rnd.choice([2, 3])
     structs = [popgen.CANON[rnd.choice(names)] for _ in range(k)]
     P = popgen.compose(structs, date, rnd, sparse=rnd.random() < 0.5)
+    if rich:      # plus the fixed households in which every default target is positive for somebody
+        P = P + popgen.rich_core(date, rnd)
     return gs.build_population(P, date), P
 
 
